@@ -98,6 +98,23 @@ func parseCases(tier string, seed uint64, rep *Report) []pcase {
 			add([]byte("{\"n\":"+s+"}"), "number-grid")
 		}
 	})
+	// every \uXXXX escape (code units 0000..ffff, surrogates included), 512 per document, as array
+	// elements; the encoding-length boundaries also as member names and inside longer strings
+	for lo := 0; lo < 0x10000; lo += 512 {
+		var sb strings.Builder
+		sb.WriteByte('[')
+		for cu := lo; cu < lo+512; cu++ {
+			if cu > lo {
+				sb.WriteByte(',')
+			}
+			fmt.Fprintf(&sb, "\"\\u%04x\"", cu)
+		}
+		sb.WriteByte(']')
+		add([]byte(sb.String()), "escape-sweep")
+	}
+	for _, cu := range []int{0x00, 0x1f, 0x7f, 0x80, 0xff, 0x7ff, 0x800, 0x801, 0xfff, 0x1000, 0xd7ff, 0xe000, 0xfeff, 0xfffd, 0xffff} {
+		add([]byte(fmt.Sprintf("{\"\\u%04x\":1,\"a\\u%04Xb\":\"x\\u%04x\\u%04xy\"}", cu, cu, cu, cu)), "escape-sweep")
+	}
 	r := NewRng(seed)
 	for i := 0; i < nDocs; i++ {
 		d := genDoc(r)
